@@ -29,6 +29,22 @@ fn tagged_payload(rng: &mut Rng, tag: u8, len: usize) -> Vec<u8> {
 impl Group for PipeGroup {
     fn default_cases(&self, tier: &str) -> u64 { if tier == "thorough" { 5_000 } else { 400 } }
 
+    fn fixed(&self, _tier: &str) -> Vec<Case> {
+        // a chunk larger than a frame with more chunks of the same stream queued right behind it, both directions
+        let mut v = vec![];
+        for who in ["c", "s"] {
+            let tag = if who == "c" { 1u8 } else { 0x81 };
+            let mut rng = Rng::new(77);
+            let big = hex_compact(&tagged_payload(&mut rng, tag, 100000));
+            let m1 = hex_compact(&tagged_payload(&mut rng, tag, 1000));
+            let m2 = hex_compact(&tagged_payload(&mut rng, tag, 3000));
+            v.push(Case { lines: vec![format!("pipe reset {} 5 md5={}", hex(b"stop=0"), md5_hex(b"stop=0")), "pipe c open".into(), "pipe c nobuf".into(),
+                format!("pipe c write 1 {}", hex_compact(&[1u8, 9, 9])), "pipe xfer c2s 0".into(),
+                format!("pipe {who} sendmany 0 {big} {m1} {m2}"), "pipe c ctl Waste 0 -".into(), "pipe drain".into()] });
+        }
+        v
+    }
+
     fn generate(&self, rng: &mut Rng, _tier: &str, _idx: u64) -> Case {
         let scheme = match rng.below(4) { 0 => DEFAULT_SCHEME.as_bytes().to_vec(), 1 => b"stop=0".to_vec(), _ => gen_scheme(rng, false) };
         let seed = rng.next() % 1_000_000;
@@ -69,7 +85,15 @@ impl Group for PipeGroup {
                 }
                 match k {
                     0..=24 => format!("c write {} {}", sid, hex_compact(&tagged_payload(rng, sid as u8, len))),
-                    25..=34 => format!("c send {} {}", h, hex_compact(&tagged_payload(rng, sid as u8, len))),
+                    25..=34 => if rng.chance(1, 3) {
+                        // a burst: 2-4 chunks submitted back to back, the first one possibly larger than a frame
+                        let k = rng.range(2, 4);
+                        let who = if s_ended.contains(&sid) || rng.chance(1, 2) { "c" } else { "s" };
+                        let tag = if who == "c" { sid as u8 } else { 0x80 | sid as u8 };
+                        let mut toks = vec![];
+                        for i in 0..k { let l = if i == 0 && big_budget.get() > 0 && rng.chance(1, 2) { big_budget.set(big_budget.get() - 1); *rng.pick(&[65535usize, 65536, 70000, 131071]) } else { rng.range(1, 3000) as usize }; toks.push(hex_compact(&tagged_payload(rng, tag, l))); }
+                        if who == "c" && c_ended.contains(&sid) { "c state".to_string() } else { format!("{who} sendmany {} {}", h, toks.join(" ")) }
+                    } else { format!("c send {} {}", h, hex_compact(&tagged_payload(rng, sid as u8, len))) },
                     35..=49 => format!("s send {} {}", h, hex_compact(&tagged_payload(rng, 0x80 | sid as u8, len))),
                     50..=54 => format!("s write {} {}", sid, hex_compact(&tagged_payload(rng, 0x80 | sid as u8, len))),
                     55..=69 => format!("xfer c2s {}", match rng.below(6) { 0 => 1, 1 => 6, 2 => 7, 3 => rng.range(1, 40), 4 => rng.range(1, 9000), _ => 0 }),
@@ -210,6 +234,14 @@ impl Group for PipeGroup {
                                 if let Some(hd) = n.handles.get(h.parse::<usize>().unwrap()) {
                                     written.entry((dirbit, hd.stream.id())).or_default().extend_from_slice(&unhex(hx).unwrap());
                                     out.tags.push(format!("chunk={}", crate::g_frame::len_class(unhex(hx).unwrap().len())));
+                                }
+                            }
+                            ["sendmany", h, hxs @ ..] if o.starts_with("ok") => {
+                                if let Some(hd) = n.handles.get(h.parse::<usize>().unwrap()) {
+                                    for hx in hxs.iter() {
+                                        written.entry((dirbit, hd.stream.id())).or_default().extend_from_slice(&unhex(hx).unwrap());
+                                        out.tags.push(format!("chunk={}", crate::g_frame::len_class(unhex(hx).unwrap().len())));
+                                    }
                                 }
                             }
                             ["read", h, _n] => {
